@@ -7,7 +7,7 @@ import shutil
 import tempfile
 
 from mc import bloomlib, keys as K
-from mc.engine import PRUNE, State, System, Violation, call
+from mc.engine import PRUNE, State, System, Violation, call, twin_divergence
 
 from probables import BloomFilter
 
@@ -239,11 +239,8 @@ class BloomSystem(System):
             self._queries(cfg, post, keys, hf, bad)
         return out
 
-    def _queries(self, cfg, st, keys, hf, bad):
-        f = st.impl
-        before = bloomlib.bloom_observation(f)
-        other = self._other(cfg, hf, keys)
-        ob = bloomlib.bloom_observation(other)
+    def _ro(self, cfg, f, keys, hf, other):
+        """every read-only call of a Bloom filter, f on either side of the set operations"""
         for k in list(keys) + ["absent-1", b"absent-2"]:
             call(f.check, k)
             call(f.__contains__, k)
@@ -269,11 +266,22 @@ class BloomSystem(System):
         call(other.union, f)
         call(other.intersection, f)
         call(other.jaccard_index, f)
+
+    def _queries(self, cfg, st, keys, hf, bad):
+        f = st.impl
+        before = bloomlib.bloom_observation(f)
+        other = self._other(cfg, hf, keys)
+        ob = bloomlib.bloom_observation(other)
+        self._ro(cfg, f, keys, hf, other)
         after = bloomlib.bloom_observation(f)
         if before != after:
             bad("C19", "bloom.queries_do_not_mutate", {"before": repr(before)[:300], "after": repr(after)[:300]})
         if bloomlib.bloom_observation(other) != ob:
             bad("C19", "bloom.set_ops_do_not_mutate_operand", {})
+        if self.cur_depth <= cfg.get("twin_depth", 2):
+            div = twin_divergence(self, cfg, st, lambda q: self._ro(cfg, q.impl, keys, hf, self._other(cfg, hf, keys)), lambda x: bloomlib.bloom_observation(x.impl))
+            if div is not None:
+                bad("C19", "bloom.queried_twin_diverges_one_step_later", div)
         # clear() == fresh object, also one step later
         g = self.clone(st).impl
         c = call(g.clear)
